@@ -44,7 +44,7 @@ allvars == <<ovars, dvars>>
 
 IntegName(i) == "webhook/" \o ToString(i - 1)
 TheCfg == [gw |-> GW, gi |-> GI, ri |-> RI, integs |-> [i \in 1..Len(SR) |-> [name |-> IntegName(i), sr |-> SR[i]]],
-           inhibit |-> INH, windows |-> Windows, wait |-> 0, maxwait |-> 0]
+           inhibit |-> INH, windows |-> Windows, wait |-> 0, maxwait |-> 0, mute |-> << >>, active |-> << >>, gkp |-> "{}"]
 NInt == Len(SR)
 AgName(i) == "ag" \o ToString(i)
 
@@ -70,7 +70,7 @@ KindAt(i, t) == IF \E w \in SeqToSet(Windows) : w.integ = IntegName(i) /\ w.from
                   ELSE "ok"
 
 Init == /\ now = 0 /\ cfg = TheCfg /\ ver = << >> /\ sil = << >> /\ last = << >> /\ brk = << >> /\ fl = << >>
-        /\ cancd = [seen |-> {}, dead |-> << >>, deadgk |-> {}, refl |-> {}, ing |-> << >>]
+        /\ cancd = [seen |-> {}, dead |-> << >>, deadgk |-> {}, refl |-> {}, ing |-> << >>, mby |-> << >>]
         /\ elig = [p \in Alerts \X {IntegName(i) : i \in 1..NInt} |-> -1] /\ chk = {}
         /\ grp = << >> /\ gmap = << >> /\ nfl = << >> /\ ids = 0 /\ nposts = 0
 
